@@ -500,3 +500,4 @@ PROPS['C01']['required_classes']['all'] += ['groups>=64', 'concurrent-compilatio
 PROPS['C05']['required_classes']['all'] += ['concurrent-compilations-for-different-architectures', 'value-edited-and-compiled-again-while-the-program-is-held']
 PROPS['C15']['required_classes']['all'] += ['policy-file-larger-than-64KiB', 'keys-outside-the-dialect:accepted']
 PROPS['C10']['required_classes']['all'] += ['policy-that-allows-everything']
+PROPS['C13']['units'].append({'test': 'TestC13JsWasm', 'timeout': {'quick': 600, 'thorough': 900}})
